@@ -387,6 +387,24 @@ func AtomUnits() []*Unit {
 		us = append(us, b.Unit())
 	}
 	{
+		// extensions and ordinary fields with explicit proto2 defaults: an absent one reads as its default through the
+		// accessors (gogo/golang GetExtension return (default, nil)) but must not reach the wire
+		b, base := extUnit("p2extdefault", "ext-default", "extension-and-field-defaults")
+		col := addColorEnum(b)
+		base.F("level", 2, Int32, Optional).Default("7", false).F("label", 3, String, Optional).Default("none", false)
+		base.F("on", 4, Bool, Optional).Default("true", false).F("ratio", 5, Double, Optional).Default("1.5", false)
+		base.FEnum("tint", 6, col.Full(), Optional).Default("GREEN", false)
+		h := b.Msg("Holder")
+		h.Ext("x_level", 100, Int32, Optional, "", base.Full()).Default("7", true)
+		h.Ext("x_label", 101, String, Optional, "", base.Full()).Default("none", true)
+		h.Ext("x_on", 102, Bool, Optional, "", base.Full()).Default("true", true)
+		h.Ext("x_ratio", 103, Double, Optional, "", base.Full()).Default("1.5", true)
+		h.Ext("x_tint", 104, Enum, Optional, col.Full(), base.Full()).Default("GREEN", true)
+		h.Ext("x_big", 105, Uint64, Optional, "", base.Full()).Default("18446744073709551615", true)
+		h.Ext("x_plain", 106, Int32, Optional, "", base.Full())
+		us = append(us, b.Unit())
+	}
+	{
 		// a message that merely declares extension ranges, plus an unrelated holder with no extensions
 		b, _ := extUnit("p2extnone", "ext-none", "extension-range-without-extensions")
 		us = append(us, b.Unit())
